@@ -37,6 +37,9 @@ type Case struct {
 	Fam    string   `json:"fam"`
 	Charts []ChartJ `json:"charts"`
 	Files  []Tree   `json:"files"`
+	// FileOrder, when present: the -f flags in order, as 1-based indexes into Files (a file may be
+	// given more than once); otherwise every file once, in order
+	FileOrder []int `json:"fileorder,omitempty"`
 	// FileDocs[i], when present and non-empty: file i is written as these YAML documents
 	FileDocs [][]Tree            `json:"filedocs,omitempty"`
 	Flags    map[string][]string `json:"flags"`
@@ -178,6 +181,16 @@ func Options(c *Case, dir string) (*clivalues.Options, error) {
 			return nil, err
 		}
 		o.ValueFiles = append(o.ValueFiles, p)
+	}
+	if len(c.FileOrder) > 0 {
+		paths := o.ValueFiles
+		o.ValueFiles = nil
+		for _, i := range c.FileOrder {
+			if i < 1 || i > len(paths) {
+				return nil, fmt.Errorf("fileorder index %d out of range", i)
+			}
+			o.ValueFiles = append(o.ValueFiles, paths[i-1])
+		}
 	}
 	o.JSONValues = c.Flags["json"]
 	o.Values = c.Flags["set"]
